@@ -457,6 +457,14 @@ func deriveTripCount(loop *Loop) {
 		return
 	}
 
+	// The formulas below count iterations of a top-tested loop that continues while the
+	// condition holds. Anything else (bottom-tested loops, "if cond { break }") is left unknown.
+	if exitBlock != loop.Header || len(exitBlock.Succs) != 2 ||
+		!loop.Blocks[exitBlock.Succs[0]] || loop.Blocks[exitBlock.Succs[1]] {
+		loop.TripCount = &SCEVUnknown{Value: nil}
+		return
+	}
+
 	var isUpCounting, ivOnLeft bool
 	var isInclusive, isNEQ bool
 
